@@ -2,12 +2,15 @@
 (***************************************************************************)
 (* Batch validation of life-cycle histories recorded from real dulwich     *)
 (* objects (code -> spec).  One ndjson line per history:                   *)
-(*   [tid, origin, v0, ev: <<event>>]                                      *)
-(* event = [op, f, x, v, ret, fields, dirty, text, shak, shav]: the call   *)
-(* (op as ObjFile!last.op names it; f, x for "set"; v the valuation given  *)
-(* to setraw/chunked), the valuation its result stands for, and the        *)
-(* projection of the real object after the call.  Valuations are tuples;   *)
-(* <<>> = none, <<-1>> = bytes/hash that belong to no valuation.           *)
+(*   [tid, origin, ofmt, v0, ev: <<event>>]                                *)
+(* event = [op, f, x, v, ret, rfmt, fields, dirty, text, shak, shav, shaf]:*)
+(* the call (op as ObjFile!last.op names it; f, x for "set"; f = requested *)
+(* format for "idF", f = format of the given name for "setraw"/"reload";   *)
+(* v the valuation given to setraw/chunked), the valuation its result      *)
+(* stands for and the format a returned name is the hash in, and the       *)
+(* projection of the real object after the call (shaf = format of the      *)
+(* cached name).  Valuations are tuples; <<>> = none, <<-1>> = bytes/hash  *)
+(* that belong to no valuation; formats 1 = SHA-1, 2 = SHA-256, 0 = none.  *)
 (*                                                                         *)
 (* Every event is first matched against ObjFile!Next (same call, same      *)
 (* result, same post-state).  If no step matches the history has left the  *)
@@ -25,7 +28,7 @@ tvars == <<vars, tid, l, verdict, failAt, driftAt>>
 Ev == Traces[tid].ev
 
 ObsText(e) == IF e.text = <<>> THEN NoText ELSE Text(e.text)
-ObsSha(e)  == IF e.shak = "none" THEN NoSha ELSE [k |-> e.shak, v |-> e.shav]
+ObsSha(e)  == IF e.shak = "none" THEN NoSha ELSE [k |-> e.shak, v |-> e.shav, fmt |-> e.shaf]
 
 TraceInit ==
     /\ tid \in 1..Len(Traces)
@@ -33,27 +36,31 @@ TraceInit ==
     /\ Init
     /\ fields = Traces[tid].v0
     /\ last.op = Traces[tid].origin
+    /\ last.f = Traces[tid].ofmt
 
 Strict(e) ==
     /\ Next
     /\ last'.op = e.op
     /\ (e.op = "set" => last'.f = e.f /\ last'.x = e.x)
-    /\ (e.op \in {"setraw", "setrawsha", "chunked"} => last'.ret = e.v)
-    /\ (e.op \notin {"set", "setraw", "setrawsha", "chunked"} => last'.ret = e.ret)
+    /\ (e.op \in {"setraw", "reload", "idF"} => last'.f = e.f)
+    /\ (e.op \in {"setraw", "chunked"} => last'.ret = e.v)
+    /\ (e.op \notin {"set", "setraw", "chunked"} => last'.ret = e.ret)
+    /\ (e.op \in {"id", "idF"} => last'.rfmt = e.rfmt)
     /\ fields' = e.fields /\ dirty' = e.dirty
     /\ text' = ObsText(e)
-    /\ sha'.k = e.shak /\ (e.shak # "none" => sha'.v = e.shav)
+    /\ sha'.k = e.shak /\ (e.shak # "none" => sha'.v = e.shav /\ sha'.fmt = e.shaf)
 
 Generic(e) ==
     /\ fields' = IF e.op = "set" THEN [fields EXCEPT ![e.f] = e.x]
-                 ELSE IF e.op \in {"setraw", "setrawsha", "chunked"} THEN e.v
+                 ELSE IF e.op \in {"setraw", "chunked"} THEN e.v
                  ELSE fields
     /\ dirty' = e.dirty /\ text' = ObsText(e) /\ sha' = ObsSha(e)
-    /\ last' = [op |-> e.op, f |-> e.f, x |-> e.x, ret |-> e.ret]
+    /\ last' = [op |-> e.op, f |-> e.f, x |-> e.x, ret |-> e.ret, rfmt |-> e.rfmt]
 
 Clause(e) ==
-    IF e.op \in {"id", "id256"} /\ e.ret # fields' THEN "IdIsHash"
-    ELSE IF e.op \in {"raw", "copy", "check", "reload", "reloadsha"} /\ e.ret # fields' THEN "SerCurrent"
+    IF e.op = "id" /\ e.ret # fields' THEN "IdIsHash"
+    ELSE IF e.op = "idF" /\ (e.ret # fields' \/ e.rfmt # e.f) THEN "IdIsHash"
+    ELSE IF e.op \in {"raw", "copy", "check", "reload"} /\ e.ret # fields' THEN "SerCurrent"
     ELSE "ok"
 
 Consume ==
